@@ -1,5 +1,6 @@
 import VotelibDriver.Json
 import VotelibModel.HighestAverages
+import VotelibModel.HighestAveragesList
 import VotelibModel.Gen.Divisor
 open Lean
 namespace VL.Drv.C01
@@ -35,6 +36,9 @@ def handle (op : String) (j : Json) : Option (Except String Json) :=
   | "ha" => some do
     let cfg ← getCfg j
     pure (exceptJson distJson (highestAverages cfg))
+  | "ha_list" => some do
+    let cfg ← getCfg j
+    pure (exceptJson distJson (highestAveragesList cfg))
   | _ => none
 
 end VL.Drv.C01
